@@ -466,6 +466,7 @@ var (
 	reInitLabel = regexp.MustCompile(`^# \.[^:]*:$`)
 	reMainLabel = regexp.MustCompile(`^# main#(\d+|\*):$`)
 	reVersion   = regexp.MustCompile(`\{(\d+),\d+\}`)
+	reGC        = regexp.MustCompile(`(?m)^\tgc .*\n`)
 	reInstance  = regexp.MustCompile(`(?m)^(# .*)#\d+:$`)
 )
 
@@ -473,13 +474,15 @@ var (
 // such label or the start of main) of an SSA listing by their label; with
 // versions=true the version numbers of all values and the instance numbers
 // of inlined functions (both are counted in initialisation order) are erased
-// first.  Two
+// and the gc instructions (placed after the last use of a value, which moves
+// with the order of the initialisers) are dropped first.  Two
 // listings that are equal after this differ only in the order in which the
 // imported packages were initialised.
 func canonSSA(text string, versions bool) string {
 	if versions {
 		text = reVersion.ReplaceAllString(text, "{$1,*}")
 		text = reInstance.ReplaceAllString(text, "$1#*:")
+		text = reGC.ReplaceAllString(text, "")
 	}
 	lines := strings.Split(text, "\n")
 	var head, tail []string
